@@ -67,9 +67,33 @@ func (t1 *Taskfile) Merge(t2 *Taskfile, include *Include) error {
 	return t1.Tasks.Merge(t2.Tasks, include, t2.Vars)
 }
 
+// scalarKeys rejects mappings with non-scalar keys anywhere below node (the YAML
+// decoder panics on them when a merge key is present).
+func scalarKeys(node *yaml.Node, depth int) error {
+	if node == nil || depth > 10000 {
+		return nil
+	}
+	if node.Kind == yaml.MappingNode {
+		for i := 0; i+1 < len(node.Content); i += 2 {
+			if k := node.Content[i]; k.Kind != yaml.ScalarNode && !(k.Kind == yaml.AliasNode && k.Alias != nil && k.Alias.Kind == yaml.ScalarNode) {
+				return errors.NewTaskfileDecodeError(nil, k).WithMessage("mapping keys must be scalars")
+			}
+		}
+	}
+	for _, c := range node.Content {
+		if err := scalarKeys(c, depth+1); err != nil {
+			return err
+		}
+	}
+	return nil
+}
+
 func (tf *Taskfile) UnmarshalYAML(node *yaml.Node) error {
 	switch node.Kind {
 	case yaml.MappingNode:
+		if err := scalarKeys(node, 0); err != nil {
+			return err
+		}
 		var taskfile struct {
 			Version  *semver.Version
 			Output   Output
